@@ -311,6 +311,8 @@ Definition copy_result (b : body_oracle) (r : response) : option err :=     (* i
    itself succeeded - a copy error is never replaced by the outcome of Close *)
 Definition handle_download (cfg : config) (b : body_oracle) (r : response) : option err :=
   if negb (r_present r) || negb (c_save cfg) then None
+  else if negb (r_cached r) && is_some (r_err r) then None   (* 42fc3cf: an earlier stage failed and left no body:
+                                                                nothing is opened, copied or closed *)
   else match copy_result b r with Some e => Some e | None => b_close b end.
 
 Definition round_trip_with (fl : flavour) (cfg : config) (a : attempt) (t : tout) : option response * option err * list event :=
